@@ -17,6 +17,8 @@ pub enum Key {
     F(f64),
     BadUnit,
     BadSeq,
+    /// a newtype struct around another key (`struct UserId(u64)`): in the data model it is its inner key
+    Newtype(Box<Key>),
 }
 
 #[derive(Clone, Debug)]
@@ -57,6 +59,7 @@ impl Serialize for Key {
             Key::F(x) => s.serialize_f64(*x),
             Key::BadUnit => s.serialize_unit(),
             Key::BadSeq => s.serialize_seq(Some(0))?.end(),
+            Key::Newtype(k) => s.serialize_newtype_struct("W", &**k),
         }
     }
 }
@@ -142,6 +145,7 @@ fn enc_key(k: &Key) -> String {
             if x.is_finite() { format!("F{:016x}", x.to_bits()) } else { "X".into() }
         }
         Key::BadUnit | Key::BadSeq => "X".into(),
+        Key::Newtype(k) => enc_key(k),
     }
 }
 
@@ -210,6 +214,9 @@ fn gen_f64(r: &mut Rng) -> f64 {
 }
 
 fn gen_key(r: &mut Rng) -> Key {
+    if r.chance(1, 8) {
+        return Key::Newtype(Box::new(gen_key(r)));
+    }
     match r.below(14) {
         0 => Key::I(r.next() as i64),
         1 => Key::U(r.next()),
